@@ -1,4 +1,5 @@
 import CashewsVerif.Lemmas.TxSample
+import CashewsVerif.Lemmas.TxMatchSample
 import CashewsVerif.Model.TxDefault
 /-
 C04 — inside a transaction, commands see the store plus their own earlier writes.
@@ -10,6 +11,11 @@ that fits the capacities (eviction is C11), user keys only (reserved ':'-keys ar
 commands), commands routed by a transaction (everything but `clear`).
 Proviso (`NoDeadlineCrossed b ops`): no deadline — of a store key, or assigned by a command of the
 transaction — is passed before the block ends.
+
+Histories WITH PATTERN COMMANDS (`delete_match`, `scan`, `get_match` next to the regular commands: `TxCmd`,
+`Model/TxMatch.lean`) are the `…_with_patterns` theorems.  Keys have names (`name : Nat → List Char`, any naming);
+standing assumptions `TxSetupC K name b cmds`: those of `TxSetup`, the universe holds the lock keys of its user
+keys, and (the properties' proviso on patterns, `PatOk`) no pattern matches the name of a reserved ':'-key.
 -/
 namespace CashewsVerif.Props.C04
 open CashewsVerif Store
@@ -145,6 +151,130 @@ theorem get_with_default_sees_own_writes (K : List Key) (b : Mem) (ops : List Op
   rw [no_write_disappears K b ops hs hn mode id timeout k hk hu]
   rfl
 
+/-! ### histories with pattern commands -/
+
+/-- **Simulation, with pattern commands.**  For every initial store, every mode and every finite history of regular
+commands, `delete_match`, `scan` and `get_match` inside one transaction — in any order, patterns repeated or not,
+matching keys that are only pending, only in the store, both, pending-deleted, or nothing at all — every command
+answers what the same command answers when the history is run directly on a copy of the store.  Observation
+`obsC`: `obs` for the regular commands; for `scan` which keys of the universe are yielded; for `get_match`
+the pair yielded for each key of the universe (value included). -/
+theorem tx_step_simulates_direct_with_patterns (K : List Key) (name : Nat → List Char) (b : Mem) (cmds : List TxCmd)
+    (hs : TxSetupC K name b cmds) (hn : NoDeadlineCrossedC b cmds = true) (mode : TxMode) (id timeout : Nat) :
+    obsAllC K cmds ((TxSt.begin_ b mode id timeout).runC name cmds).2 = obsAllC K cmds (b.runC name cmds).2 := by
+  obtain ⟨_, _, _, _, _, _, ho⟩ := reachNdcC hs hn mode id timeout
+  exact ho
+
+/-- **No write disappears, with pattern commands** — and no delete either: after any history with pattern
+commands, a `get` inside the transaction returns for a key exactly the value direct execution of the history
+left in the store.  In particular a later `delete_match` — whatever its pattern, matching or not, repeated or
+not — neither brings back a key that `delete` / `delete_many` / an earlier `delete_match` removed, nor keeps a
+pending write of a matching key, nor loses one of a non-matching key. -/
+theorem no_write_disappears_with_patterns (K : List Key) (name : Nat → List Char) (b : Mem) (cmds : List TxCmd)
+    (hs : TxSetupC K name b cmds) (hn : NoDeadlineCrossedC b cmds = true) (mode : TxMode) (id timeout : Nat)
+    (k : Key) (hk : k ∈ K) (hu : reserved k = false) :
+    (((TxSt.begin_ b mode id timeout).runC name cmds).1.get k).2 = ((b.runC name cmds).1.rawGet k).2 := by
+  obtain ⟨a, tb, href, _, _, hsim, _⟩ := reachNdcC hs hn mode id timeout
+  have hd := Mem.good_runC name cmds hs.good hs.hist
+  rw [(TxSt.get_refines href hk hu).2, (Mem.good_rawGet hd k).2, ← hsim.vals' k]
+  unfold ATx.view
+  split <;> rfl
+
+/-- **A conditional write that reports failure changes nothing — after any history with pattern commands**
+(e.g. `set(k, …, exist=True)` of a key an earlier `delete_match` removed): overlay, pending deletes and the
+store's user keys are what they were, and a commit right after it leaves the store exactly as a commit right
+before it would have. -/
+theorem failed_conditional_is_noop_with_patterns (K : List Key) (name : Nat → List Char) (b : Mem) (cmds : List TxCmd)
+    (k : Key) (v : Val) (ttl : Option Nat) (c : Cond) (hs : TxSetupC K name b (cmds ++ [.op (.set k v ttl c)]))
+    (hn : NoDeadlineCrossedC b (cmds ++ [.op (.set k v ttl c)]) = true) (mode : TxMode) (id timeout : Nat) :
+    let st := ((TxSt.begin_ b mode id timeout).runC name cmds).1
+    let st' := (st.step (.set k v ttl c)).1
+    (st.step (.set k v ttl c)).2 = .bool false →
+      (∀ k', st'.ov.view k' = st.ov.view k') ∧ st'.del = st.del ∧
+      (∀ k', reserved k' = false → st'.b.view k' = st.b.view k') ∧
+      (∀ k', st'.commit.b.view k' = st.commit.b.view k') := by
+  intro st st' hfalse
+  have hs0 := hs.prefix
+  have hmap : (cmds ++ [TxCmd.op (.set k v ttl c)]).map TxCmd.timing = cmds.map TxCmd.timing ++ [.set k v ttl c] := by
+    simp [TxCmd.timing]
+  have hT : endTimeC b.now (cmds ++ [.op (.set k v ttl c)]) = endTimeC b.now cmds := by
+    have : ∀ (l : List Op) now, endTime now (l ++ [.set k v ttl c]) = endTime now l := by
+      intro l; induction l with
+      | nil => intro now; simp [endTime, Op.dt]
+      | cons op l ih => intro now; simp only [List.cons_append, endTime]; exact ih _
+    unfold endTimeC; rw [hmap]; exact this _ b.now
+  have hn' := hn
+  simp only [NoDeadlineCrossedC, NoDeadlineCrossed, Bool.and_eq_true, hmap] at hn'
+  have hT' : endTime b.now (cmds.map TxCmd.timing ++ [.set k v ttl c]) = endTimeC b.now cmds := by
+    have := hT; unfold endTimeC at this; rw [hmap] at this; exact this
+  rw [hT'] at hn'
+  have hn0 : NoDeadlineCrossedC b cmds = true := by
+    simp only [NoDeadlineCrossedC, NoDeadlineCrossed, Bool.and_eq_true]
+    refine ⟨hn'.1, ?_⟩
+    have : ∀ (l : List Op) now T, assignedOk T now (l ++ [.set k v ttl c]) = true → assignedOk T now l = true := by
+      intro l; induction l with
+      | nil => intro _ _ _; rfl
+      | cons op l ih =>
+        intro now T h
+        simp only [List.cons_append, assignedOk, Bool.and_eq_true] at h ⊢
+        exact ⟨h.1, ih _ _ h.2⟩
+    exact this _ _ _ hn'.2
+  obtain ⟨a, tb, href, hw, hb, _, _⟩ := reachNdcC hs0 hn0 mode id timeout
+  have hop : OpOk K (.set k v ttl c) := hs.cmds (.op (.set k v ttl c)) (by simp)
+  obtain ⟨n1, n2, _⟩ := now_of_refC href hw hb
+  have hdl : dlAfter (endTimeC b.now cmds) (deadlineOf st.ov.now ttl) = true := by
+    have : ∀ (l : List Op) now, assignedOk (endTimeC b.now cmds) now (l ++ [.set k v ttl c]) = true →
+        dlAfter (endTimeC b.now cmds) (deadlineOf (endTime now l) ttl) = true := by
+      intro l; induction l with
+      | nil => intro now h; simpa [assignedOk, Op.ttls, endTime] using h
+      | cons op l ih =>
+        intro now h
+        simp only [List.cons_append, assignedOk, Bool.and_eq_true] at h
+        simp only [endTime]; exact ih _ h.2
+    have hend := this _ b.now hn'.2
+    rw [n1]; exact hend
+  obtain ⟨tb', href', hout⟩ := TxSt.step_refines href (.set k v ttl c) hop.1
+    (fun k' hk' => hop.2.1 k' hk' _) (by rfl) (by intro ttl' h'; simp [Op.ttls] at h'; subst h'; exact hdl)
+  have habs : (a.step (.set k v ttl c)).1 = a := by
+    have h2 : (a.step (.set k v ttl c)).2 = .bool false := by rw [← hout]; exact hfalse
+    cases c with
+    | always => simp [ATx.step] at h2
+    | nx => simp only [ATx.step] at h2 ⊢; split at h2 <;> simp_all
+    | xx => simp only [ATx.step] at h2 ⊢; split at h2 <;> simp_all
+  rw [habs] at href'
+  refine ⟨fun k' => ?_, ?_, fun k' hu => ?_, fun k' => ?_⟩
+  · rw [href'.ov.ref.2 k', href.ov.ref.2 k']
+  · rw [href'.del, href.del]
+  · rw [href'.b.ref.2 k', href.b.ref.2 k', href'.user k' hu, href.user k' hu]
+  · obtain ⟨t1, g1, _, r1, u1⟩ := TxSt.commit_refines href hw
+    obtain ⟨t2, g2, _, r2, u2⟩ := TxSt.commit_refines href' hw
+    obtain ⟨_, n2', _⟩ := now_of_refC href' hw hb
+    rw [expired_nil_of_fresh href (Nat.le_of_eq n2)] at u1
+    rw [expired_nil_of_fresh href' (Nat.le_of_eq n2')] at u2
+    rw [g2.ref.2 k', g1.ref.2 k']
+    cases hr : reserved k' with
+    | true => rw [r1 k' hr, r2 k' hr]
+    | false => rw [u1 k' hr, u2 k' hr]
+
+/-- a history of regular commands only is a history with pattern commands: same run, same answers -/
+theorem regular_history_is_a_history (name : Nat → List Char) (ops : List Op) (st : TxSt) (m : Mem) :
+    (st.runC name (ops.map .op)).1 = (st.run ops).1 ∧ (st.runC name (ops.map .op)).2 = (st.run ops).2.map .out ∧
+    (m.runC name (ops.map .op)).1 = (m.run ops).1 ∧ (m.runC name (ops.map .op)).2 = (m.run ops).2.map .out :=
+  ⟨(TxSt.runC_ops name ops st).1, (TxSt.runC_ops name ops st).2, (Mem.runC_ops name ops m).1, (Mem.runC_ops name ops m).2⟩
+
+/-- **In fast mode the lock backend's `delete_match` is the plain backend's** (`TransactionBackend.delete_match`:
+the overlay's `delete_match`, every scanned store key ADDED to the pending deletes), and in every mode the scanned
+keys are added to — never replace — the pending deletes: a key deleted earlier stays deleted. -/
+theorem delete_match_extends_pending_deletes (name : Nat → List Char) (st : TxSt) (pat : List Char) (hm : st.mode = .fast) :
+    (st.stepC name (.deleteMatch pat)).1 = st.deleteMatchBase name pat ∧
+    ∀ k, k ∈ st.del → k ∈ (st.deleteMatchBase name pat).del := by
+  refine ⟨by rw [TxSt.stepC_deleteMatch, TxSt.deleteMatchLock_fast name st pat hm], fun k hk => ?_⟩
+  have : ∀ (ks : List Key) (d : List Key), k ∈ d → k ∈ ks.foldl (fun d k => k :: d) d := by
+    intro ks; induction ks with
+    | nil => intro d h; exact h
+    | cons x ks ih => intro d h; simp only [List.foldl_cons]; exact ih _ (List.mem_cons_of_mem _ h)
+  exact this _ _ hk
+
 /-! ### Non-vacuity (sample transaction: `Lemmas/TxSample.lean`) -/
 
 /-- the hypotheses of the theorems are satisfiable by a non-trivial transaction -/
@@ -168,6 +298,30 @@ example : ∀ mode ∈ [TxMode.fast, .locked, .serializable],
       ((TxSt.begin_ { now := 3, cap := 1000, store := [(0, ⟨.int 5, none⟩), (2, ⟨.int 7, none⟩)] } mode 1 80).run
         [.set 0 .nil none .always, .get 0, .set 2 (.int 0) none .xx, .get 2, .getMany [0, 2, 4]]).2 =
     [.bool true, .val (some .nil), .bool true, .val (some (.int 0)), .vals [some .nil, some (.int 0), some .nil]] := by
+  decide
+
+/-! ### Non-vacuity of the theorems with pattern commands (sample: `Lemmas/TxMatchSample.lean`) -/
+
+/-- the hypotheses are satisfiable by a non-trivial history with pattern commands -/
+example : TxSetupC sampleK sampleName sampleStore sampleCmds ∧ NoDeadlineCrossedC sampleStore sampleCmds = true :=
+  ⟨sampleSetupC, by decide⟩
+
+/-- …and the model really does something on it, the same in the three modes: the deleted key 0 stays deleted
+through the unrelated `delete_match`es, `scan` / `get_match` see the own writes, the repeated identical
+`delete_match` removes the key written again, the only-if-present write of the removed key fails -/
+example : ∀ mode ∈ [TxMode.fast, .locked, .serializable],
+    ((TxSt.begin_ sampleStore mode 1 80).runC sampleName sampleCmds).2 =
+    [.out (.bool true), .out .unit, .out (.val none), .keys [], .out (.bool true), .out (.int 1),
+     .pairs [(2, some (.tok 9)), (4, some (.int 1))], .out .unit, .out .unit, .out (.bool false), .out .unit,
+     .out (.vals [none, none, none]), .out .unit, .keys [], .out (.bool true)] := by decide
+
+/-- the premise of `failed_conditional_is_noop_with_patterns` occurs in the sample (the 10th command) -/
+example : (((TxSt.begin_ sampleStore .locked 1 80).runC sampleName (sampleCmds.take 9)).1.step (.set 2 (.tok 7) none .xx)).2
+    = .bool false := by decide
+
+/-- `delete(ka); delete_match("kb*")` in fast mode: the pending delete of ka is still there (seeded change C04-9
+replaced the set of pending deletes by the scanned keys) -/
+example : ((TxSt.begin_ sampleStore .fast 1 80).runC sampleName [.op (.delete 0), .deleteMatch pB]).1.del = [2, 0] := by
   decide
 
 end CashewsVerif.Props.C04
